@@ -3,13 +3,17 @@
 spec:   spec/UriOps.tla (the functions: three-state decode scanner, UTF-8 reading, encoders,
         check-escaped rule, host split), spec/Uri.tla (state machine + the laws as invariants),
         spec/MC_Uri.tla (bounded instances, Emit), spec/UriHosts.tla (hand-picked authorities),
-        spec/UriTrace.tla (trace judge)
+        spec/UriLong.tla (long inputs from chunk readings), spec/UriTrace.tla (trace judge)
 legs:   M  exhaustive TLC check of the laws (DecodeTotal, DecodeConcat, EncodeOutputAlphabet,
            EncodeConcat, DecodeEncodeId, CheckEscapedFixpoint, HostSplitLaw) with per-function
            coverage and a wrong-design vacuity run
         A  every <<input, function, output>> TLC computed is replayed on falcon.uri; multi-KB
            inputs are concatenations of enumerated blocks (justified by the *Concat laws)
         B  calls of falcon.uri on seeded random longer strings recorded and judged by UriTrace
+        long  (M) DecodeChunkLaw / CheckEscapedConcat / EncodedPiecesAreChunks checked on every sequence of <= 4
+           escape tokens, wrong-design run; (A) those cases replayed, escape-dense concatenations of them to
+           ~5000 escapes; (B) calls with 1..~5000 escapes at every alignment relative to the powers of two,
+           recorded as chunk dictionaries and decided by UriTrace from the chunk readings
 """
 META = {
     'property_id': 'C10',
@@ -20,9 +24,25 @@ META = {
                   'to the bound over the 14-symbol alphabet; the outputs TLC computes for every such string are compared '
                   'with falcon.uri (all six functions, both plus flags), long inputs are covered as concatenations of '
                   'enumerated blocks (law DecodeConcat/EncodeConcat), and calls on random longer strings are recomputed '
-                  'by TLC (UriTrace).',
+                  'by TLC (UriTrace). Long, escape-dense inputs are decided from TLC-evaluated short chunks by the '
+                  'model-checked laws DecodeChunkLaw (octets concatenate, the text is the UTF-8 reading of the whole: a '
+                  'character split between two parts comes out once), EncodeConcat and CheckEscapedConcat.',
     'level_note': 'Bounded: all strings <= 4 (quick: <= 3) exhaustively; random strings <= 160 code points and a few of '
-                  '1-4 K judged by TLC; concatenations up to 8 KB. Lone surrogates are outside the model (not encodable). '
+                  '1-4 K judged by TLC; concatenations up to 8 KB. Long dimension: the chunk laws are checked by TLC on '
+                  'all sequences of <= 4 tokens over 13 tokens (escapes of the octets of one 2-, one 3-, one 4-octet '
+                  'character, a, +, a malformed escape, raw U+00E9; quick: <= 3 tokens plus all 4-token sequences over the '
+                  '4-octet character); decode is called with 1 to ~5000 escapes: runs of escaped 2-/3-/4-octet characters '
+                  '(4+4+3 representatives, both hex cases) at every alignment relative to 2^3..2^12 counted in %-tokens and '
+                  'in output octets and to 2^3..2^13 counted in input characters, plus seeded mixtures with +, escaped '
+                  'ASCII, malformed escapes, ill-formed sequences and raw non-ASCII text, both unquote_plus settings '
+                  '(quick: one of the two for inputs above 600 escapes); encode/encode_value with up to ~5000 octets to '
+                  'escape (and decode of their output), the check-escaped encoders on already-escaped texts of up to 5000 '
+                  'escapes, exact and with one offender early/middle/late/at the end. The long cases are split by the '
+                  'harness into chunks; TLC verifies that every chunk ends on an escape and character boundary (H:chunk) '
+                  'and evaluates the spec on the distinct chunks only - a long input whose defect depends on something '
+                  'other than token/octet/character position (e.g. total content hashing) is outside this construction. '
+                  'Escape-dense concatenations of enumerated token blocks (which may cut characters) are compared on octet '
+                  'level through the trusted CPython codec. Lone surrogates are outside the model (not encodable). '
                   'Trusted: TLC, CPython utf-8 codec (cross-checked against the UTF-8 reading in UriOps). unquote_string '
                   'is not mentioned by the property statement and is not checked. The Cython twin cannot be built here '
                   'and is not checked.',
@@ -134,6 +154,191 @@ def bisect_verdicts(ctx, traces, verdicts, origin):
                 report(ctx, v.rsplit('@', 1)[0], t['ev'][0], origin)
 
 
+# ---- long, escape-dense inputs (spec/UriLong.tla) -------------------------------------------------------
+# A long input is built from PIECES (short strings).  The harness only strings them together and calls the
+# code; the judge (UriTrace!JudgeDecodeLong / JudgeEncodeLong) evaluates the spec on the distinct pieces, checks
+# that the pieces may be put together (whole escapes, whole characters: H:chunk otherwise) and decides the call
+# by the laws DecodeChunkLaw / EncodeConcat / CheckEscapedConcat that TLC model-checked.
+def esc(ch, lower=False):
+    return ''.join(('%%%02x' if lower else '%%%02X') % b for b in ch.encode('utf-8'))
+
+
+CHARS = {2: '\xe9\xff\xdf\x80', 3: '\u20ac\uff14\uffff\u0800', 4: '\U0001f600\U00010000\U0010ffff'}
+ESC_ASCII = ('%41', '%2B', '%20', '%25', '%00', '%7e', '%2f', '%0A', '%7F')      # one token each, one octet each
+RAW_ASCII = ('a', 'Z', '0', '/', '~', ' ', '+', '=', '&', '+')
+MALFORMED = ('%G1', '%4G', '%%41', '%zz', '%+1', '% 41', '%u0041', '%\xe9', '%-5', '%%+', '%４1', '%4+')
+ILLFORMED = ('%E2%82a', '%F0%9F+', '%C3/', '%FF', '%C0%80', '%ED%A0%80', '%80', '%E2%82%41', '%F4%90%80%80',
+             '%E0%80%80', '%C3\xe9', '%f0%9f%98+', '%E2%E2%82%AC', '%F0%9F%98%F0%9F%98%80')
+RAW_WIDE = ('\xe9', '€', '\U0001f600', '４')
+
+
+def spell(pieces):
+    """pieces -> (dictionary of distinct pieces as code points, 1-based index sequence)"""
+    idx, dic, seq = {}, [], []
+    for pc in pieces:
+        k = idx.get(pc)
+        if k is None:
+            k = idx[pc] = len(dic) + 1
+            dic.append(cps(pc))
+        seq.append(k)
+    return dic, seq
+
+
+def call_long(kind, pieces, plus=False, f=''):
+    """One public call on a long input -> event of the judge's long formats."""
+    from falcon import uri
+    dic, seq = spell(pieces)
+    s = ''.join(pieces)
+    e = {'fn': kind, 'f': f, 'plus': bool(plus), 'dict': dic, 'seq': seq, 'out': [], 'out2': [], 'back': [], 'backp': [],
+         'err': False, 'exc': ''}
+    try:
+        if kind == 'decode_long':
+            out = uri.decode(s, unquote_plus=plus)
+        else:
+            fun = getattr(uri, f)
+            out = fun(s)
+            if f.endswith('check_escaped'):
+                e['out2'] = cps(fun(out))
+            else:
+                try:
+                    e['back'] = cps(uri.decode(out, unquote_plus=False))
+                    e['backp'] = cps(uri.decode(out, unquote_plus=True)) if f == 'encode_value' else e['back']
+                except Exception:
+                    e['back'] = e['backp'] = [-1]
+        if not isinstance(out, str):
+            raise TypeError('%s returned %r' % (f or kind, type(out)))
+        e['out'] = cps(out)
+    except Exception as ex:  # the property promises totality
+        e['err'] = True
+        e['out'], e['out2'], e['back'], e['backp'] = [], [], [], []
+        e['exc'] = repr(ex)[:200]
+    return e, s
+
+
+def decode_long_inputs(ctx, rng):
+    """-> list of (label, pieces).  Runs of escaped 2-, 3- and 4-octet characters at every alignment relative to
+    the powers of two 8..4096 counted in '%'-tokens (prefix of 0..k escaped-ASCII tokens), in output octets (raw
+    ASCII prefix) and 8..8192 counted in input characters (raw prefix 0..3k-1); then seeded mixtures with 1 to
+    ~5000 escapes."""
+    out = []
+    n = 0
+    tails = (RAW_ASCII, MALFORMED, ILLFORMED, RAW_WIDE, ESC_ASCII)
+
+    def tail():
+        return [rng.choice(rng.choice(tails)) for _ in range(rng.randint(0, 3))]
+
+    def run_of(k, count, i):
+        ch = CHARS[k][i % len(CHARS[k])]
+        return [esc(ch, lower=(i % 5 == 3))] * count
+
+    for j in range(3, 13):
+        B = 1 << j
+        for k in (2, 3, 4):
+            for p in range(k + 1):               # token alignment: the run starts at token p + 1
+                n += 1
+                pre = [rng.choice(ESC_ASCII) for _ in range(p)]
+                out.append(('tok%d/k%d/p%d' % (B, k, p), pre + run_of(k, (B - p) // k + 2, n) + tail()))
+            for q in range(k):                   # output-octet alignment with a raw first token
+                n += 1
+                pre = [rng.choice(RAW_ASCII) for _ in range(q + 1)]
+                out.append(('oct%d/k%d/q%d' % (B, k, q + 1), pre + run_of(k, (B - q - 1) // k + 2, n) + tail()))
+    for j in range(3, 14):
+        B = 1 << j
+        for k in (2, 3, 4):
+            for q in range(3 * k):               # alignment counted in input characters
+                n += 1
+                pre = [rng.choice(RAW_ASCII) for _ in range(q)]
+                out.append(('chr%d/k%d/q%d' % (B, k, q), pre + run_of(k, (B - q) // (3 * k) + 2, n) + tail()))
+    # mixtures: escaped characters of all widths and both hex cases with '+', escaped ASCII, malformed escapes,
+    # ill-formed sequences and raw non-ASCII text in between
+    targets = list(range(1, 10)) + [15, 16, 17, 31, 33, 63, 64, 65, 127, 129, 255, 257, 511, 513, 1023, 1025,
+                                    2047, 2049, 4095, 4097, 5000]
+    for rep in range(ctx.pick(1, 4)):
+        for tg in targets:
+            pcs, ne = [], 0
+            dense = rng.random() < 0.5
+            while ne < tg:
+                t = rng.random()
+                if t < (0.8 if dense else 0.45):
+                    k = rng.choice((2, 3, 4))
+                    pc = esc(rng.choice(CHARS[k]), lower=rng.random() < 0.3)
+                elif t < 0.85:
+                    pc = rng.choice(ESC_ASCII)
+                elif t < 0.9:
+                    pc = rng.choice(MALFORMED)
+                elif t < 0.94:
+                    pc = rng.choice(ILLFORMED)
+                elif t < 0.97:
+                    pc = rng.choice(RAW_WIDE)
+                else:
+                    pc = rng.choice(RAW_ASCII)
+                pcs.append(pc)
+                ne += pc.count('%')
+            if rng.random() < 0.3:               # the input may end inside a character or inside an escape
+                pcs.append(rng.choice(('%E2%82', '%F0', '%C3', '%', '%4', '%F0%9F%98')))
+            out.append(('mix%d' % tg, pcs))
+    return out
+
+
+def encode_long_inputs(ctx, rng):
+    """-> list of (label, encoder name, pieces): long texts with many characters that need escapes for the plain
+    encoders (and decode(encode(x)) = x through them); long already-escaped texts, exact and with one offender
+    early / in the middle / late / at the very end, for the check-escaped encoders."""
+    out = []
+    need = ('\xe9', '€', '\U0001f600', ' ', '"', '%', '<', '\x00', '\n', '４', '\U0010ffff', '\x7f', '\x80')
+    keep = ('a', '~', '-', 'Z9', '_.')
+    resv = ('/', '+', '?', '&=', ':')
+    sizes = (1, 7, 8, 9, 64, 1023, 1025, 4097, 5000)          # octets that need an escape
+    for f in ('encode', 'encode_value'):
+        for i, nesc in enumerate(sizes):
+            for mix in range(ctx.pick(2, 4)):
+                pcs, ne = [], 0
+                while ne < nesc:
+                    t = rng.random()
+                    pc = rng.choice(need) if t < (0.95 if mix == 0 else 0.6) else \
+                        rng.choice(keep) if t < 0.85 else rng.choice(resv)
+                    pcs.append(pc)
+                    ne += len(pc.encode('utf-8')) if pc in need else 0
+                out.append(('plain%d' % nesc, f, pcs))
+    offenders = (' ', '\xe9', '%zz', '%', '%4', '"', '%%41', '%G1')
+    for f in ('encode_check_escaped', 'encode_value_check_escaped'):
+        ok_extra = resv if f == 'encode_check_escaped' else ()
+        for ntok in (1, 8, 100, 1025, 4097, 5000):
+            pcs, ne = [], 0
+            while ne < ntok:
+                t = rng.random()
+                pc = esc(rng.choice(CHARS[rng.choice((2, 3, 4))]), lower=rng.random() < 0.3) if t < 0.7 else \
+                    rng.choice(ESC_ASCII) if t < 0.85 else rng.choice(keep + ok_extra)
+                pcs.append(pc)
+                ne += pc.count('%')
+            out.append(('escaped%d' % ntok, f, pcs))
+            other = 'encode_value_check_escaped' if f == 'encode_check_escaped' else 'encode_check_escaped'
+            if ntok in (8, 1025):                                  # the same text through the other encoder
+                out.append(('escaped%d' % ntok, other, pcs + ['/']))
+            for off in rng.sample(offenders, ctx.pick(3, 6)):
+                where = rng.choice(('early', 'mid', 'late', 'end'))
+                if off in ('%', '%4') or where == 'end':           # these cut an escape: only as the last piece
+                    q = pcs + [off]
+                else:
+                    at = {'early': min(2, len(pcs)), 'mid': len(pcs) // 2, 'late': max(0, len(pcs) - 2)}[where]
+                    q = pcs[:at] + [off] + pcs[at:]
+                out.append(('near%d/%s' % (ntok, where), f, q))
+    return out
+
+
+def report_long(ctx, clause, e, label, s):
+    case = {'event': {k: v for k, v in e.items() if k != 'exc'}, 'origin': 'long leg (%s)' % label}
+    what = '%s on a %d-character input (%d pieces, %d "%%") -> %s %s [%s]' % (
+        e['f'] or 'decode', len(s), len(e['seq']), s.count('%'),
+        'raised' if e['err'] else '%d characters' % len(e['out']), e.get('exc', ''), label)
+    if clause.startswith('D:'):
+        ctx.detail(clause, case, what)
+    elif clause.startswith('H:'):
+        raise MachineryError('UriTrace rejected the harness input: %s %s' % (clause, what))
+    else:
+        ctx.violation(clause, case, what)
+
+
 def run(ctx):
     ctx.rule = ('case = (function, input string[, plus flag]); non-trivial iff the string contains "%" or a non-ASCII '
                 'code point; distinct by (function, flag, string)')
@@ -147,17 +352,31 @@ def run(ctx):
     # ---- legs M + A (one exhaustive run per instance: laws as invariants, cases via Emit) ----------
     r = ctx.tlc('MC_Uri', ctx.pick('MC_UriQ.cfg', 'MC_Uri.cfg'), coverage=True, workers=6, timeout=900)
     ctx.require_coverage(r, ['XDecode', 'XEncode', 'XEncodeValue', 'XEncodeCE', 'XEncodeValueCE'])
+    ctx.progress('leg M: alphabet instance done')
     rh = ctx.tlc('MC_Uri', ctx.pick('MC_UriHostQ.cfg', 'MC_UriHost.cfg'), coverage=True, workers=6, timeout=600)
     ctx.require_coverage(rh, ['XParseHost'])
     rc = ctx.tlc('MC_Uri', 'MC_UriCtl.cfg', coverage=True, workers=6, timeout=600)      # LF / CR / TAB in every position
     ctx.require_coverage(rc, ['XDecode', 'XEncode', 'XEncodeValue', 'XEncodeCE', 'XEncodeValueCE'])
+    ctx.progress('leg M: host and control-character instances done')
     bad = ctx.tlc('MC_Uri', 'MC_UriBad.cfg', must_hold=False, count=False, workers=2, timeout=120)
     if bad.violated != 'EncodeOutputAlphabet':
         raise MachineryError('vacuity: the lower-case-escape design was not rejected (%r)' % (bad.violated,))
+    # escape-dense inputs: every sequence of <= 4 tokens (escapes of the octets of a 2-, a 3- and a 4-octet character,
+    # 'a', '+', a malformed escape, raw non-ASCII); carries the laws that decide long inputs from short pieces
+    rt = ctx.tlc('MC_Uri', ctx.pick('MC_UriTokQ.cfg', 'MC_UriTok.cfg'), coverage=True, workers=6, timeout=ctx.pick(600, 1800))
+    ctx.require_coverage(rt, ctx.pick(['XDecode', 'XEncodeValueCE'], ['XDecode', 'XEncodeValue', 'XEncodeValueCE']))
+    ctx.progress('leg M: token instance done')
+    badtok = ctx.tlc('MC_Uri', 'MC_UriTokBad.cfg', must_hold=False, count=False, workers=2, timeout=120)
+    if badtok.violated != 'DecodeChunkLaw':
+        raise MachineryError('vacuity: piece-wise decoding at any escape-safe split was not rejected (%r)' % (badtok.violated,))
+    if len(rt.json) < rt.distinct * 2 // 3:
+        raise MachineryError('Emit produced %d cases for %d states (token instance)' % (len(rt.json), rt.distinct))
     ctx.exhaustive = True
-    ctx.progress('leg M done: %d + %d states, %d + %d cases exported'
-                 % (r.distinct, rh.distinct, len(r.json), len(rh.json)))
-    cases = r.json + rc.json + rh.json
+    ctx.progress('leg M done: %d + %d + %d states, %d + %d + %d cases exported'
+                 % (r.distinct, rh.distinct, rt.distinct, len(r.json), len(rh.json), len(rt.json)))
+    ctx.extra['token_instance_states'] = rt.distinct
+    ntok0 = len(r.json) + len(rc.json)
+    cases = r.json + rc.json + rt.json + rh.json
     if len(rc.json) < rc.distinct * 6 // 7:
         raise MachineryError('Emit produced %d cases for %d states (control characters)' % (len(rc.json), rc.distinct))
     if len(r.json) < r.distinct * 6 // 7 or not rh.json:
@@ -168,7 +387,8 @@ def run(ctx):
     lowblocks = {True: [], False: []}
     encblocks = {'encode': [], 'encode_value': []}
     ctlblocks = {'encode': [], 'encode_value': []}      # enumerated blocks ending in a control character
-    for c in cases:
+    tokblocks = {True: [], False: []}                   # closed blocks of the token instance (escape-dense)
+    for ci, c in enumerate(cases):
         s = txt(c['s'])
         fn = c['fn']
         want = txt(c['out'])
@@ -179,6 +399,8 @@ def run(ctx):
                                      % (c['bytes'], want, viacodec))
             if c['closed'] and s:
                 blocks[c['plus']].append((s, bytes(c['bytes'])))
+                if ntok0 <= ci < ntok0 + len(rt.json) and '%' in s:
+                    tokblocks[c['plus']].append((s, bytes(c['bytes'])))
                 if '%0' in s or '%10' in s:
                     lowblocks[c['plus']].append((s, bytes(c['bytes'])))
         elif fn in encblocks and s:
@@ -210,9 +432,14 @@ def run(ctx):
         target = rng.choice((40, 200, 1000, 8192)) if i % 4 else rng.choice((12, 20, 30))
         parts, n = [], 0
         pool = blocks[plus]
+        if i % 3 == 2:      # escape-dense: blocks of the token instance only (they end inside characters as well:
+            #                 the OCTETS concatenate, the text is the reading of the whole), up to ~5000 escapes
+            pool = tokblocks[plus]
+            target = rng.choice((24, 100, 3100, 6200, 12300, 15000))
         lowpool = lowblocks[plus]         # blocks with an escape of one of the lowest octets (%00, %01, %0a, %10)
         while n < target:
-            b = rng.choice(lowpool) if lowpool and rng.random() < 0.15 else \
+            b = rng.choice(pool) if pool is tokblocks[plus] else \
+                rng.choice(lowpool) if lowpool and rng.random() < 0.15 else \
                 pool[rng.randrange(len(pool))] if rng.random() < 0.5 else \
                 rng.choice(pool[:3000])       # short blocks (many escapes per KB)
             parts.append(b)
@@ -348,14 +575,53 @@ def run(ctx):
                 ctx.case({'fn': 'parse_host', 's': s}, nontrivial=True, key=('parse_host', d, s))
     evs = list(events.values())
     ctx.progress('leg B: %d calls recorded' % len(evs))
-    traces, verdicts = judge_events(ctx, evs, per=25)
-    bisect_verdicts(ctx, traces, verdicts, 'leg B (recorded call)')
+
+    # ---- leg B-long: 1 .. ~5000 escapes, every alignment relative to the powers of two; judged from chunk readings ----
+    longs = []           # (event, label, input)
+    nesc = 0
+    for n_, (label, pcs) in enumerate(decode_long_inputs(ctx, rng)):
+        big = sum(pc.count('%') for pc in pcs) > 600
+        for plus in ((bool(n_ & 1),) if big and ctx.quick else (False, True)):
+            e, s = call_long('decode_long', pcs, plus)
+            longs.append((e, label, s))
+            nesc = max(nesc, s.count('%'))
+            ctx.case({'fn': 'decode', 'len': len(s), 'plus': plus, 'origin': 'long:' + label}, nontrivial=nontrivial(s),
+                     key=('decode', plus, s))
+    ndec = len(longs)
+    for label, f, pcs in encode_long_inputs(ctx, rng):
+        e, s = call_long('encode_long', pcs, False, f)
+        longs.append((e, label, s))
+        ctx.case({'fn': f, 'len': len(s), 'origin': 'long:' + label}, nontrivial=nontrivial(s), key=(f, False, s))
+    ctx.progress('leg B-long: %d decode + %d encoder calls on long inputs recorded (up to %d escapes)'
+                 % (ndec, len(longs) - ndec, nesc))
+    ctx.extra['long_calls_judged'] = len(longs)
+    ctx.extra['long_max_escapes'] = nesc
+
+    evs_ = [{k: v for k, v in e.items() if k != 'exc'} for e in evs]
+    traces = [{'ev': evs_[i:i + 25]} for i in range(0, len(evs_), 25)]
+    nshort = len(traces)
+    traces += [{'ev': [{k: v for k, v in e.items() if k != 'exc'}]} for e, _, _ in longs]
+    verdicts = ctx.judge('UriTrace', traces, env=JUDGE_ENV, workers=8, timeout=1500, chunk=2500)
+    bisect_verdicts(ctx, traces[:nshort], verdicts[:nshort], 'leg B (recorded call)')
+    for (e, label, s), v in zip(longs, verdicts[nshort:]):
+        if v != 'ok' and len(ctx.violations) < 40:
+            report_long(ctx, v.rsplit('@', 1)[0], e, label, s)
     ctx.extra['recorded_calls_judged'] = len(evs)
     ctx.extra['cython_twin'] = 'stale-or-absent, not checked'
 
 
 def replay(ctx, case):
     e0 = case['event']
+    if e0['fn'].endswith('_long'):
+        pcs = [txt(e0['dict'][k - 1]) for k in e0['seq']]
+        e, s = call_long(e0['fn'], pcs, e0['plus'], e0['f'])
+        print('call :', e0['f'] or 'decode', '%d characters, %d pieces' % (len(s), len(pcs)), 'plus' if e0['plus'] else '')
+        print('got  :', '%d characters' % len(e['out']), e['exc'])
+        vs = ctx.judge('UriTrace', [{'ev': [{k: v for k, v in e.items() if k != 'exc'}]}], env=JUDGE_ENV, workers=2, timeout=600)
+        print('verdict:', vs[0])
+        if vs[0] != 'ok':
+            report_long(ctx, vs[0].rsplit('@', 1)[0], e, 'replay', s)
+        return
     s = txt(e0['s'])
     e = call(e0['fn'], s, e0['plus'], None)
     print('call :', e0['fn'], repr(s), 'plus' if e0['plus'] else '')
